@@ -17,6 +17,7 @@ from Crypto.PublicKey import ECC
 
 from .. import drive
 from . import common
+from ..mon import faults
 
 ID = "C15"
 RULE = ("keys: 5 types x 2 encodings x 2 private x 2 public formats (all 40 combinations, repeated) through "
@@ -69,22 +70,30 @@ def case_keys(rec, case):
         for leftover in (f"{prefix}_priv.{enc}", f"{prefix}_pub.{enc}"):
             drive.make_stale(leftover)
         rec.count("keys:longer-files-of-an-earlier-run-under-the-prefix")
-    try:
-        if route == "cmd":
-            from suit_generator import cmd_keys
-            cmd_keys.main(output_file=prefix, type=ktype, encoding=enc, private_format=priv, public_format=pub,
-                          encryption="none")
-        else:
-            argv = ["keys", "--output-file", prefix, "--type", ktype, "--encoding", enc, "--private-format", priv,
-                    "--public-format", pub]
-            if route == "cli":
-                rc, e = drive.cli_inproc(argv)
-                exc = None if rc == 0 else (e or RuntimeError(f"cli exit {rc}"))
+    def invoke():
+        exc = None
+        try:
+            if route == "cmd":
+                from suit_generator import cmd_keys
+                cmd_keys.main(output_file=prefix, type=ktype, encoding=enc, private_format=priv, public_format=pub,
+                              encryption="none")
             else:
-                rc, err = drive.cli_sub(argv, wd)
-                exc = None if rc == 0 else RuntimeError(f"cli exit {rc}: {err[-300:]}")
-    except Exception as e:  # noqa
-        exc = e
+                argv = ["keys", "--output-file", prefix, "--type", ktype, "--encoding", enc, "--private-format", priv,
+                        "--public-format", pub]
+                if route == "cli":
+                    rc, e = drive.cli_inproc(argv)
+                    exc = None if rc == 0 else (e or RuntimeError(f"cli exit {rc}"))
+                else:
+                    rc, err = drive.cli_sub(argv, wd)
+                    exc = None if rc == 0 else RuntimeError(f"cli exit {rc}: {err[-300:]}")
+        except Exception as e:  # noqa
+            exc = e
+        return exc
+
+    # a share of the in-process runs meets an injected I/O fault or a file-size limit (vlib/mon/faults.py): a run that
+    # fails is repeated without it, one that reports success is judged below like any other
+    exc = faults.run(f"{case['seed']}/{ID}/keys/{case['n']}", invoke, p=0.1 if route in ("cmd", "cli") else 0)
+
     combo = f"{ktype}/{enc}/{priv}/{pub}"
     rec.count("keys:combo:" + combo)
     rec.count("keys:prefix-with-dot" if "." in os.path.basename(prefix) else "keys:prefix-plain")
